@@ -10,6 +10,7 @@ import (
 	"time"
 
 	"verif/mc/clustermc"
+	"verif/mc/world"
 	"verif/mc/engine"
 	"verif/mc/registry"
 )
@@ -74,6 +75,8 @@ func registerFamily(id string, mk func() *clustermc.Family) {
 			return 2
 		}
 		fam := mk()
+		var after []*world.World
+		fam.OnReplayStep = func(_ int, w *world.World) { after = append(after, w.Clone()) }
 		tr, err := fam.ReplayPath(&v.Replay)
 		if err != nil {
 			fmt.Fprintln(os.Stderr, "replay error:", err)
@@ -92,6 +95,22 @@ func registerFamily(id string, mk func() *clustermc.Family) {
 				fmt.Printf("  oracle: %s: %s\n", viol.Key, viol.Message)
 				if viol.Key == v.Key {
 					found = true
+				}
+			}
+		}
+		if fam.StateOracle != nil && len(after) == len(v.Replay.Path) {
+			// state oracles (e.g. the lasso of C15) judge the whole path: canonical form of every world reached
+			if w0, err := world.FromJSON(v.Replay.Initial); err == nil {
+				cpath := []string{world.Canon(w0)}
+				scn := &clustermc.Scenario{Name: v.Replay.Scenario}
+				for i, w := range after {
+					cpath = append(cpath, world.Canon(w))
+					for _, viol := range fam.StateOracle(scn, v.Replay.Path[:i+1], cpath, w) {
+						fmt.Printf("  state oracle: %s: %s\n", viol.Key, viol.Message)
+						if viol.Key == v.Key {
+							found = true
+						}
+					}
 				}
 			}
 		}
